@@ -49,7 +49,7 @@ def _recipe(draw):
 @st.composite
 def op_strategy(draw, kind):
     names = ["param", "rho", "translate", "rotate", "symmetry", "set_coord", "replace_mesh", "bc", "matrices", "solve",
-             "solve", "save", "set_iter", "algo"]
+             "solve", "save", "set_iter", "algo", "copy_mesh"]
     if kind != "thermal":
         names.append("damping")
     name = draw(st.sampled_from(names))
@@ -107,6 +107,13 @@ def histories(draw, kind):
                                    dict(op="set_coord", A=[[1.5, 0.0], [0.25, 0.75]], b=[0.0, 0.5])]))
         ops = [dict(op="solve"), dict(op="save"), dict(op="replace_mesh", recipe=_recipe(draw)), dict(op="bc", seed=draw(st.integers(0, 99))),
                dict(op="set_iter", i=0), mv, dict(op="solve")] + ops
+    elif tpl == 3:  # the mesh replaced by a COPY of itself (made while its geometric caches are warm), the copy moved and used,
+        # then the iteration saved on the original mesh restored: two mesh objects of the same size used in turn
+        mv = draw(st.sampled_from([dict(op="rotate", theta=37.0, center=[0.0, 0.0, 0.0]), dict(op="symmetry", point=[0.0, 0.0, 0.0], n=[1.0, 0.5, 0.0]),
+                                   dict(op="set_coord", A=[[1.5, 0.0], [0.25, 0.75]], b=[0.0, 0.5])]))
+        sd = draw(st.integers(0, 99))
+        ops = [dict(op="solve"), dict(op="save"), dict(op="copy_mesh"), mv, dict(op="bc", seed=sd), dict(op="solve"), dict(op="save"),
+               dict(op="set_iter", i=0), dict(op="solve"), dict(op="set_iter", i=1), dict(op="solve")] + ops
     elif tpl == 1:  # two condition sets with the same counts on other dofs, solved one after the other
         sd = draw(st.integers(0, 32)) * 3
         ops = [dict(op="bc", seed=sd), dict(op="solve"), dict(op="bc", seed=sd + 1), dict(op="solve")] + ops
@@ -265,8 +272,16 @@ def run_history(case, rec):
         L = lives[k % len(lives)] if name not in ("param",) else lives[0]
         tag = f"{prev}->{name}"
         sig = dict(sig0, op=name, prev=prev)
-        invalidating = name in ("param", "rho", "damping", "translate", "rotate", "symmetry", "set_coord", "replace_mesh")
-        if name == "param":
+        invalidating = name in ("param", "rho", "damping", "translate", "rotate", "symmetry", "set_coord", "replace_mesh", "copy_mesh")
+        if name == "copy_mesh":
+            m2 = L.simu.mesh.copy()  # Mesh.copy(): an independent mesh with the same nodes and elements
+            cur = L.slot.coord.copy()
+            L.simu.mesh = m2
+            L.slots.append(Slot(m2))
+            L.slots[-1].coord = cur
+            L.cur = len(L.slots) - 1
+            L.bc = None
+        elif name == "param":
             pn, val = op["name"], op["value"]
             if base_kind == "elastic" and pn == "planeStress":
                 model.planeStress = bool(val)
